@@ -336,7 +336,12 @@ def check(ctx):
         else:
             n_ok += 1
             r4.ok("%s does no substring search" % f.name)
-    r4.require_floor(4, "parsing functions")
+    # ... and the walk over the items of one #[validate(..)] is not cut short: every callback consumes its item's arguments (shared with C06)
+    from metawalk import check_meta_walks
+    n_walks = check_meta_walks(ctx, r4, lambda fid: "::validator_parser::ValidatorParser::" in fid, "#[validate(..)]")
+    if not n_walks:
+        r4.bad(V(r4.id, "<anchor>", "missing:validate-meta-walk", "anchor not found: no parse_nested_meta walk in ValidatorParser"))
+    r4.require_floor(5, "parsing functions + item walks")
     rules.append(r4)
 
     # ---------------------------------------------------------------- D5 (accumulation over several #[validate(..)] attributes)
